@@ -28,6 +28,7 @@ def binVal (op : Op) (a b : Val) : Val :=
   | .sub => evalArith .sub a b
   | .mul => evalArith .mul a b
   | .mod => evalArith .mod a b
+  | .concat_op => evalArith .concat_op a b
   | .and_ => evalArith .and_ a b
   | .or_ => evalArith .or_ a b
   | .eq => ofTV (evalCmp .eq a b)
@@ -61,6 +62,22 @@ def caseVal (noValue : Bool) (v : Val) (ws : List Val) (noElse : Bool) (e : Val)
   let items := ws ++ (if noElse then [] else [e])
   if noValue then caseSearchedVal items else caseSimpleVal v items
 
+/-- value of `a / b` (`truediv`) and `a // b` (`floordiv`) as the dialect spells them: the
+    per-operator scheme of `visit_truediv_binary` / `visit_floordiv_binary` *is* the meaning of
+    the operator on that dialect (`lt`, `rt`: the SQL types of the operands); what the theorems
+    establish is that nesting never changes which values reach the backend's `/`.  A numeric
+    literal such as `0.0` is NULL in this value model (`Val` has no non-integer numbers). -/
+def divVal (d : Dialect) (op : Op) (lt rt : Ty) (a b : Val) : Val :=
+  match op with
+  | .truediv =>
+    if d = .sqlite then Abs.div a (evalArith .add b .null)
+    else if Gen.divIsFloordiv d then Abs.div a (Abs.castF ((Gen.castName d .num).getD "NUMERIC") b)
+    else Abs.div a b
+  | .floordiv =>
+    if Gen.divIsFloordiv d ∧ rt = .int ∧ lt = .int then Abs.div a b
+    else fnVal "FLOOR" [Abs.div a b]
+  | _ => .null
+
 mutual
 def evalCore (env : String → Val) (d : Dialect) : SaExpr → Val
   | .col n _ => env n
@@ -68,6 +85,8 @@ def evalCore (env : String → Val) (d : Dialect) : SaExpr → Val
   | .null => .null
   | .true_ => .int 1
   | .false_ => .int 0
+  | .binary .truediv l r _ _ _ => divVal d .truediv (tyOf l) (tyOf r) (evalCore env d l) (evalCore env d r)
+  | .binary .floordiv l r _ _ _ => divVal d .floordiv (tyOf l) (tyOf r) (evalCore env d l) (evalCore env d r)
   | .binary op l r _ _ _ => binVal op (evalCore env d l) (evalCore env d r)
   | .clist op cs _ _ _ => foldVals op (evalCoreList env d cs)
   | .unary op e _ => unVal op (evalCore env d e)
@@ -83,17 +102,24 @@ def evalCoreList (env : String → Val) (d : Dialect) : List SaExpr → List Val
   | e :: es => evalCore env d e :: evalCoreList env d es
 end
 
+/-- SQL type of the element the API calls of `u` construct (SQLAlchemy's own type inference;
+    `//` renders differently for Integer operands) -/
+def tyU (u : U) : Ty := ((build u).map tyOf).getD .null
+
 def isAbsentU : U → Bool
   | .absent => true
   | _ => false
 
 mutual
-/-- meaning of a numeric API-call tree -/
+/-- meaning of a numeric or string-valued API-call tree -/
 def evalNumU (env : String → Val) (d : Dialect) : U → Val
   | .col n _ => env n
   | .subq n _ => env n
   | .li i => .int i
+  | .ls s => .str s
   | .ln _ => .null
+  | .bin .truediv a b => divVal d .truediv (tyU a) (tyU b) (evalNumU env d a) (evalNumU env d b)
+  | .bin .floordiv a b => divVal d .floordiv (tyU a) (tyU b) (evalNumU env d a) (evalNumU env d b)
   | .bin k a b => binVal k.op (evalNumU env d a) (evalNumU env d b)
   | .neg a => unVal .neg (evalNumU env d a)
   | .cast ty a => castVal d ty (evalNumU env d a)
